@@ -19,6 +19,7 @@ ANCHORS = [
     ("mt_window_width", "src/client/server_mutate_ticks.rs", r"VecDeque::from\(\[Default::default\(\);\s*u(\d+)::BITS", 64),
     ("mutate_index_width", "src/shared/replication/mutate_index.rs", r"struct MutateIndex\(.*\bu(\d+)\);", 16),
     ("default_priority_single", "src/shared/replication/replication_rules.rs", r"const DEFAULT_PRIORITY: usize = (\d+);", 1),
+    ("cond_sequence_width", "bevy_replicon_example_backend/src/link_conditioner.rs", r"next_sequence:\s*u(\d+)", 64),
     ("tcp_size_width", "bevy_replicon_example_backend/src/tcp.rs", r"let message_size: u(\d+) =", 16),
 ]
 
